@@ -18,6 +18,8 @@ def table():
         res = m.get("check_results", [])
         caught = [r for r in res if r["exit"] == 1]
         verdict = "CAUGHT (quick)" if any(r["tier"] == "quick" for r in caught) else ("caught (thorough only)" if caught else ("missed" if res else "not run yet"))
+        if m.get("history") and caught:
+            verdict = "missed on the first run; " + verdict + " after the monitor was strengthened"
         sig = caught[0]["signature"] if caught else ""
         rows.append(f"| {d} | {m['property']} | {m['needs_to_manifest'][:110].replace('|','/')} | {verdict} | {sig[:90].replace('|','/')} |")
     out = ["# Seeded changes and which checks catch them", "",
